@@ -76,6 +76,9 @@ pub struct Exec {
 
 pub const STEP_CAP: usize = 20_000;
 
+/// live bytes one execution (its thread) may hold
+pub const MEMORY_CAP: usize = 1 << 30;
+
 /// Schedule alternatives `DEMOTE_BASE + k` mean: demote the k-th enabled task at this step (it is not run again until
 /// no other task is enabled and no user/fault action is left to issue, or until virtual time is about to pass), then
 /// continue with the default choice. This is
@@ -117,6 +120,7 @@ pub async fn settle_io(w: &mut World) -> bool {
 }
 
 fn run_one_here<S: Scenario>(scn: &S, schedule: &[(usize, usize)], seed: u64) -> Exec {
+    crate::env::alloc::reset();
     let real_io = scn.real_io();
     let rt = if real_io { driver::runtime_io(seed) } else { driver::runtime(seed) };
     let result = catch_unwind(AssertUnwindSafe(|| {
@@ -233,6 +237,22 @@ fn run_one_here<S: Scenario>(scn: &S, schedule: &[(usize, usize)], seed: u64) ->
                     ex.viols.push((v.signature, v.what));
                 }
                 step += 1;
+                // an execution of these scenarios needs a few MiB; one that holds gigabytes is running away (buffers
+                // that grow with every step): stop it and say so, instead of exhausting the machine
+                if crate::env::alloc::live() > MEMORY_CAP {
+                    ex.viols.push((
+                        "execution/memory-runaway".into(),
+                        format!("the execution holds more than {} MiB after {step} steps (something grows without bound)", MEMORY_CAP >> 20),
+                    ));
+                    ex.cap_hit = true;
+                    break;
+                }
+            }
+            if crate::env::pipe::take_runaway() {
+                ex.viols.push((
+                    "carrier/runaway-writer".into(),
+                    format!("a task wrote more than {} MiB into one carrier direction in this execution (a write/flush loop that never finishes)", crate::env::pipe::RUNAWAY_CAP >> 20),
+                ));
             }
             for b in std::mem::take(&mut w.contract_breaches) {
                 ex.viols.push(("machinery/environment-contract".into(), b));
@@ -311,6 +331,7 @@ pub struct Outcome {
 
 impl E2 {
     pub fn explore<S: Scenario>(&self, scn: &S) -> Outcome {
+        crate::report::progress(&format!("E2 scenario {}", scn.name()));
         let mut stats = Stats::default();
         let mut machinery = Vec::new();
         // determinism: the default schedule twice, and once more under a second rng seed (select! branch order)
